@@ -73,6 +73,7 @@ type E4 struct {
 	Part       string
 	Flows      []string
 	Kinds      func(method string) []string // error kinds to inject into a call of method
+	PairKinds  func(method string) []string // kinds for the method-PAIR plans (nil: Kinds)
 	Depth      int                          // max number of index faults per plan
 	MethodSets int                          // 0 none, 1 every method, 2 also every pair of methods
 	NewWorker  func(w int) func(E4Plan) E4Obs
@@ -319,8 +320,12 @@ func (c *Check) e4Flow(e *E4, flow string, run func(E4Plan) E4Obs, rep *E4Report
 						done2[key] = true
 						changed = true
 						// every kind either method may fail with (union, order of first mention)
-						kinds := slices.Clone(e.Kinds(m1))
-						for _, k := range e.Kinds(m2) {
+						pk := e.PairKinds
+						if pk == nil {
+							pk = e.Kinds
+						}
+						kinds := slices.Clone(pk(m1))
+						for _, k := range pk(m2) {
 							if !slices.Contains(kinds, k) {
 								kinds = append(kinds, k)
 							}
